@@ -218,5 +218,5 @@ func TestC09(t *testing.T) {
 	if !requireHooks(t) {
 		return
 	}
-	ev.Check(t, "c09_source", ev.N(1600, 40000), c09Gen, c09Run)
+	ev.Check(t, "c09_source", ev.N(2400, 40000), c09Gen, c09Run)
 }
